@@ -60,6 +60,11 @@ def run(ctx):
                       rename=_rename, independent=_char_observation)
         _verdict(run, "C18.R2", lf, "file: rewrite", r, m)
 
+    lf = m.fn("ZConfig.url.urlunsplit")
+    r = X.compare(P, lf, X.spec_function(m, "ref_url.py", "urlunsplit"),
+                  independent=_char_observation)
+    _verdict(run, "C18.R2", lf, "file: rewrite (third copy)", r, m)
+
     # R3
     nu = m.fn(BL + ".normalizeURL")
     r = X.compare(P, nu, X.spec_method(P, "ref_loader.py", "normalizeURL",
